@@ -512,4 +512,31 @@ theorem xfe_get_cyclic_group_elements_exact (g : XF.X3) (hg : TF.XFp.canon3 g) (
   · exact TF.XFp.x_cyclicGroup_zero_none
 example : XF.cyclicGroup 5 (0, 0, 0) (some 3) = some [XF.one, (0, 0, 0), (0, 0, 0)] := by decide
 
+/-- with a bound `m` the extension-field loop always ends (for every `g`, also zero) and returns between 2 and
+    `max m 2` elements `[1, g, g², …]` -/
+theorem xfe_get_cyclic_group_elements_bounded (g : XF.X3) (hg : TF.XFp.canon3 g) (m fuel : Nat) (hf : max m 2 ≤ fuel + 1) :
+    ∃ l, XF.cyclicGroup fuel g (some m) = some l ∧ (∀ x ∈ l, TF.XFp.canon3 x) ∧ 2 ≤ l.length ∧ l.length ≤ max m 2 ∧
+      l.map XF.toVal = (List.range l.length).map (TF.XFp.xnpow (XF.toVal g)) :=
+  TF.XFp.x_cyclicGroup_some g hg m fuel hf
+example : TF.XFp.canon3 XF.one ∧ max 0 2 ≤ 1 + 1 := ⟨TF.XFInvProofs.canon3_one, by decide⟩
+
+/-- NOT YET PROVED (listed under `partial`): without a bound the extension-field loop ends for every non-zero `g`
+    (the multiplicative group of the field with `P³` elements is finite) -/
+def xfe_get_cyclic_group_elements_unbounded_terminates_statement : Prop :=
+  ∀ g : XF.X3, TF.XFp.canon3 g → g ≠ XF.zero → ∃ fuel l, XF.cyclicGroup fuel g none = some l
+
+/-- full statement of `FiniteField::batch_inversion` for `XFieldElement` (NOT YET PROVED, listed under `partial`): any
+    vector of non-zero elements is mapped to the vector of inverses -/
+def xfe_batch_inversion_statement : Prop :=
+  ∀ xs : List XF.X3, (∀ x ∈ xs, TF.XFp.canon3 x ∧ x ≠ XF.zero) →
+    ∃ rs, XF.batchInversion xs = some rs ∧ rs.length = xs.length ∧
+      ∀ i (h1 : i < rs.length) (h2 : i < xs.length), TF.XFp.canon3 rs[i] ∧ XF.mul rs[i] xs[i] = XF.one
+
+/-- proved part of `batch_inversion` on the extension field: the empty vector is returned unchanged and a vector
+    containing zero panics (the model is tied to the crate by correspondence; the harness checks `r·x = 1` on every run) -/
+theorem xfe_batch_inversion_partial (xs : List XF.X3) :
+    XF.batchInversion [] = some [] ∧ (XF.zero ∈ xs → XF.batchInversion xs = none) :=
+  ⟨rfl, TF.XFp.x_batchInversion_zero xs⟩
+example : XF.zero ∈ [XF.one, XF.zero] := by decide
+
 end TF.C01
